@@ -9,9 +9,11 @@ PROGS = ["S0:5", "T0:7", "G0", "X0", "T0:7 G0", "S0:5 X0", "G0 T0:9 G0", "f0 S1:
 class C18(ConcBase):
     id = "C18"
     design_ref = "DESIGN.md section 5 / C18"
-    theorems_note = ("data_linearizable (every data operation takes effect atomically at its single machine step, under the data lock: the "
-                     "results of any concurrent run are those of the sequential optional-slot specification in step order), "
-                     "try_set_exclusive (of several conditional sets on an empty slot exactly one succeeds), payloads_dropped_once")
+    theorems_note = ("data_step_atomic (every data operation is one machine step, under the data lock, and that step is the sequential "
+                     "optional-slot operation on the data of its tree position: new content and result as specified, every other position "
+                     "untouched), other_steps_keep_data, try_set_exclusive (a conditional set succeeds exactly when the slot is empty, and "
+                     "fills it), payloads_dropped_once (for every reachable state: values created = values stored + values dropped; when "
+                     "all threads are done all of them have been dropped)")
     assumptions = [
         "each data method runs entirely under the node's data RwLock in the right mode (one machine step): read off the code; the lock "
         "events of the real code are replayed against the machine",
